@@ -23,8 +23,8 @@ P = {
              text="For each of the 237 exported settings the kernel evaluates a Boolean check (identity, no duplicates, products with generators, spanning tree, inverses, nuniq/centring bookkeeping, Laue order, metric preservation) and Lemmas/SgSound proves that it implies closure of ALL pairs, inverses, nodup; metric preservation is lifted to every conforming real cell; all 244 names resolve (kernel-decided) and lookup factors through normalisation.",
              note="translations snapped to 24ths (each decimal proved within 5e-7); Laue class checked by order + compatibility + metric preservation; certificates untrusted (re-checked).", ref="DESIGN.md §6 C04"),
  'C05': dict(tech="Lean 4 theorems about an executable model of genhkl_base/genhkl_all (sysabs translated from the AST, segment tables exported) + line-protocol correspondence on all Laue variants",
-             text="sysabs/sysabs_unique are translated from the Python AST into Lean Int functions; the traversal and orbit expansion are hand-modelled over exact rationals and tied to the code by correspondence (the model reproduces the code incl. its traversal defect). Proved: cascade normal form of sysabs, traversal soundness (cone membership), emission spec, expansion = orbit without repetition, genhkl_all = union of orbits of genhkl_unique rows.",
-             note="PARTIAL: agreement of sysabs with the operators for all hkl (T5.1) and completeness of the traversal (T5.3/T5.4) are not proved; they are covered by the brute-force search only. Known finding C05-D2 (traversal misses reflections on oblique/rhombohedral cells).", ref="DESIGN.md §6 C05"),
+             text="sysabs/sysabs_unique are translated from the Python AST into Lean Int functions; the traversal and orbit expansion are hand-modelled over exact rationals and tied to the code by correspondence (the model reproduces the code incl. its traversal defect). Proved: for ALL 237 settings and ALL integer hkl on the traversed cones, sysabs = 0 iff no operator of the group extinguishes hkl (T5.1; 237 generated theorems re-checked whenever sglib.py or sysabs changes); cascade normal form, traversal soundness (cone membership), emission spec (rows = visited points in the shell that no operator extinguishes), expansion = orbit without repetition, genhkl_all = union of orbits of genhkl_unique rows.",
+             note="PARTIAL: completeness of the traversal (T5.3) is not proved — it is false in general (known finding C05-D2: traversal misses reflections on oblique/rhombohedral cells) and is covered by the brute-force search; cone transversality (T5.4) in progress.", ref="DESIGN.md §6 C05"),
  'C06': dict(tech="as C05",
              text="Proved about the model tied to the code by correspondence: rows sorted by non-decreasing stl, 4th column = stl of the row, min exclusive / max inclusive, rows allowed by sysabs and inside their cone, genhkl_all = union of the families of genhkl_unique rows.",
              note="PARTIAL: 'exactly one member of every family' is proved only in the soundness direction (T5.4 cone transversality not proved); known finding C06-D2.", ref="DESIGN.md §6 C06"),
